@@ -436,7 +436,7 @@ class World(WorldBase):
             if kind == "center":
                 keys = sorted(opts)
                 if rng.random() < 0.7:
-                    new = {str(k): rng.randint(1, 9) for k in keys}            # same keys, other labels
+                    new = {str(k): rng.choice([0, 1, 2, 3, 4, 5, 6, 7, 8, 9]) for k in keys}            # same keys, other labels
                 else:
                     new = self.gen_read_center(rng)["moltypes"] if path in self.dumps else {str(k): 1 for k in keys}
                 op["edit"] = {"how": how, "moltypes": new}
@@ -476,7 +476,7 @@ class World(WorldBase):
         keys = rng.sample(range(1, K + 1), rng.randint(1, K))
         if rng.random() < 0.2:
             keys.append(K + 3)                       # a key no atom has
-        mol = {str(k): rng.randint(1, 9) for k in keys}
+        mol = {str(k): rng.choice([0, 0, 1, 2, 3, 4, 5, 6, 7, 8, 9, -1, 10 ** 6]) for k in keys}     # any label, zero included
         return {"op": "read_center", "path": p, "moltypes": mol, "via": rng.choice(["DumpReader", "wrapper", "keep"]),
                 "mapkind": rng.choice(["dict", "dict", "dict", "defaultdict", "Counter", "OrderedDict"])}
 
